@@ -82,6 +82,11 @@ where
 }
 
 fn do_work<Op: Operator>(mut block: Block<Op>, coord: Coord) {
+    #[cfg(feature = "verif")]
+    let _verif_guard = {
+        crate::verif::emit(&crate::verif::Event::WorkerStart { coord });
+        crate::verif::WorkerGuard(coord)
+    };
     let mut catch_panic = CatchPanic::new(|| {
         error!("worker {} crashed!", coord);
     });
